@@ -5,6 +5,7 @@ Spec: {"grid": grid spec (simplices: 1-d cart/tensor, tri, tet, gmsh in the thor
 frame=True : the spec's matrix is expressed in the frame that moves with the grid (K_ambient = R K R^T);
 frame=False: the spec's matrix is the ambient 3x3 tensor as it stands (for dim < 3 the discretisation
              uses its tangential block, "is_tangential" False = default).
+"bcfill": what bc_values holds on interior faces ("zero" | "linear" = p(x_f) on all faces | "garbage").
 "seq": the discretisations run one after the other (["rt0","mvem"], ["mvem","rt0"], ["rt0","rt0","mvem"], ...);
 "share": "data"   - one data / parameter dictionary (and so one tensor, bc, bc_values) for the whole sequence,
          "tensor" - a fresh data dictionary per step but the same SecondOrderTensor / bc / bc_values objects,
@@ -34,7 +35,8 @@ RULE = (
     "tetrahedra (gmsh triangles / tetrahedra in the thorough tier), with interior-node perturbation, 3-d affine maps "
     "and a rigid motion (1-d / 2-d grids thereby embedded in arbitrary lines / planes of R^3); a constant SPD tensor "
     "Q diag(l) Q^T, l in [0.1,10] (isotropic / diagonal / full), given either in the frame moving with the grid or as an "
-    "arbitrary ambient 3x3 tensor; a linear pressure p = c + a.x. Dirichlet data p(x_f) on every boundary face. For "
+    "arbitrary ambient 3x3 tensor; a linear pressure p = c + a.x. Dirichlet data p(x_f) on every boundary face; the face-wise bc_values array holds on "
+    "interior faces zero, the linear field or arbitrary numbers (only boundary entries are boundary data). For "
     "a sequence of 2-3 discretisations with pp.RT0 and pp.MVEM (both orders, RT0 twice, ...) that share one data / "
     "parameter dictionary, or one SecondOrderTensor / bc / bc_values with fresh dictionaries, or nothing; for dim < 3 "
     "optionally is_tangential = True with the permeability given in the grid's tangent frame (1-d: kxx = kt and kyy, kzz "
@@ -63,6 +65,8 @@ ASSUMPTIONS = [
     "for grids of dimension < 3 the permeability acts through its block in the grid's tangent space (is_tangential False)",
     "'positive definite' is demanded as lambda_min > 1e-10 lambda_max (well-conditioned generated cells and tensors)",
     "the linear system is solved with scipy's sparse direct solver, as in the repository's tests",
+    "bc_values has one entry per face (as in the repository's tests); entries on faces that carry no boundary condition "
+    "are not boundary data and must not influence the result",
     "discretize / assemble_matrix_rhs do not modify the parameters they are given (no docstring documents in-place "
     "modification; rt0 / mvem copy the tensor before rotating it)",
     "is_tangential = True (dim < 3): the tensor's leading dim x dim block holds the permeability in the grid's tangent "
@@ -75,6 +79,7 @@ REQUIRED = {"dim1": 0.04, "dim2": 0.2, "dim3": 0.15, "embedded": 0.12, "perturbe
             "K-iso": 0.08, "K-diag": 0.06, "K-ambient": 0.15, "K-frame": 0.15, "share-data": 0.1, "share-tensor": 0.2,
             "share-none": 0.1, "shared-first-rt0": 0.2, "shared-first-mvem": 0.1, "shared-3d": 0.1,
             "shared-3d-rt0-first": 0.05, "is-tangential": 0.08, "shared-is-tangential": 0.04,
+            "bc-values-on-interior-faces": 0.3, "bc-values-interior-linear": 0.12, "bc-values-interior-garbage": 0.12,
             "tangential-anisotropic-1d": 0.03, "tangential-out-of-plane-differs": 0.05, "tangential-mvem": 0.06,
             "tangential-rt0": 0.06}
 
@@ -100,6 +105,7 @@ def _spec(draw, tier):
                                 ["mvem", "mvem", "rt0"], ["rt0", "mvem", "rt0"]]))
     return {"grid": grid, "K": draw(fv.spd_spec()), "frame": draw(st.booleans()), "field": draw(fv.field_spec()),
             "seq": seq, "share": draw(st.sampled_from(["data", "tensor", "tensor", "none"])),
+            "bcfill": {"mode": draw(st.sampled_from(["zero", "linear", "garbage"])), "seed": draw(st.integers(0, 2**31 - 1))},
             "tangential": draw(st.integers(0, 2 if fam != "seg" else 1)) == 0,
             # tangential tensor (used when "tangential" and dim < 3): value in the tangent frame, and the factors by
             # which the remaining diagonal entries differ from it (they must not influence the result)
@@ -144,7 +150,15 @@ def check(spec):
 
     bf = g.get_all_boundary_faces()
     bc = pp.BoundaryCondition(g, bf, ["dir"] * bf.size)
-    bc_val = np.zeros(g.num_faces)
+    # bc_values is a face-wise array of which only the boundary entries are boundary data; the entries on interior
+    # faces are zero, the linear field there as well (a natural way to fill the array), or arbitrary numbers
+    fill = spec.get("bcfill") or {"mode": "zero", "seed": 0}
+    if fill["mode"] == "linear":
+        bc_val = fv.linear_pressure(fs, g.face_centers) + 0.0
+    elif fill["mode"] == "garbage":
+        bc_val = np.random.default_rng(fill["seed"]).uniform(-50.0, 50.0, g.num_faces)
+    else:
+        bc_val = np.zeros(g.num_faces)
     bc_val[bf] = fv.linear_pressure(fs, g.face_centers[:, bf])
 
     # exact values
@@ -238,6 +252,8 @@ def check(spec):
             labels.append("shared-3d")
             if seq[0] == "rt0":
                 labels.append("shared-3d-rt0-first")
+    if fill["mode"] != "zero" and g.num_faces > bf.size:
+        labels += ["bc-values-on-interior-faces", "bc-values-interior-" + fill["mode"]]
     if tang is not None:
         labels = [l for l in labels if not l.startswith("K-")] + ["K-tangential"]
         labels.append("tangential-anisotropic-1d" if g.dim == 1 else "tangential-out-of-plane-differs")
